@@ -289,7 +289,23 @@ func c11Positions() []c11Pos {
 		}},
 		{"type", func(n string) *ir.Module {
 			m := ir.NewModule()
-			t := m.NewTypeDef(n, types.NewStruct(i32))
+			// the definition is of one of the kinds a name can be given to (each kind has a String method of its own)
+			var body types.Type
+			switch len(n) % 6 {
+			case 0:
+				body = types.NewStruct(i32)
+			case 1:
+				body = types.NewArray(2, i32)
+			case 2:
+				body = types.NewInt(24)
+			case 3:
+				body = types.NewPointer(i32)
+			case 4:
+				body = types.NewVector(4, i32)
+			default:
+				body = &types.FloatType{Kind: types.FloatKindDouble}
+			}
+			t := m.NewTypeDef(n, body)
 			m.NewGlobal("g", t)
 			m.Globals[0].Linkage = enum.LinkageExternal
 			return m
